@@ -30,6 +30,7 @@
 
 
 // project includes
+#include "celma/common/detail/verif_hook.hpp"
 #include "celma/common/file_operations.hpp"
 #include "celma/log/detail/log_msg.hpp"
 #include "celma/log/filename/builder.hpp"
@@ -104,6 +105,8 @@ void PolicyBase::open( bool from_reopen)
 
    mCurrentLogfileName = filename;
 
+   CELMA_VERIF_POINT( "open:file-opened");
+
    if (!openCheck())
    {
       if (from_reopen)
@@ -131,12 +134,20 @@ void PolicyBase::writeMessage( const detail::LogMsg& msg,
    const std::string& msg_text)
 {
 
+   CELMA_VERIF_POINT( "write:begin");
+
    if (!writeCheck( msg, msg_text))
       reOpenFile();
 
+   CELMA_VERIF_POINT( "write:before-write");
+
    mFile << msg_text << std::endl;
 
+   CELMA_VERIF_POINT( "write:after-write");
+
    written( msg, msg_text);
+
+   CELMA_VERIF_POINT( "write:done");
 
 } // PolicyBase::writeMessage
 
@@ -167,7 +178,11 @@ void PolicyBase::reOpenFile()
 
    mFile.close();
 
+   CELMA_VERIF_POINT( "reopen:closed");
+
    rollFiles();
+
+   CELMA_VERIF_POINT( "reopen:rolled");
 
    open( true);
 
